@@ -8,18 +8,22 @@
 //! stdin, one case per line:
 //!   elect names=<r0>,<r1>[,<r2>] conns=<x>><y>,<x>><y>,... | <token> <token> ...
 //!     names: the nodes' name ranks (node i is called n<rank>@host; rank order = str::cmp order)
-//!     conns: connection k is dialled by node x and accepted by node y (is_server on y)
+//!     conns: connection k is dialled by node x and accepted by node y (is_server on y);
+//!            `L>y:<nonce>` = dialled by a hand-driven LEGACY peer (header word legacy=<rank>; it speaks
+//!            the wire protocol itself and announces the given connection nonce: 0 or a repeated one)
 //!   tokens (each followed by a quiescence barrier):
 //!     o<k>   open connection k (both NodeServers get ConnectionOpenedExternal)
 //!     <k>f   release the next frame travelling dialler -> acceptor on connection k
 //!     <k>b   release the next frame travelling acceptor -> dialler
-//!     S<k>   connection k is stalled: excluded from `F` until `U`
+//!     <k>n <k>c <k>a   legacy connection k: send Name | answer Status+Challenge | take the Ack and send Ready
+//!     S<k>   connection k is stalled: excluded from `F` until `U`; `Z<k>`: stalled for good
 //!     F      every connection that is not stalled runs freely; wait for quiescence; snapshot
 //!     U      no connection is stalled any more (everything runs freely); quiescence; snapshot
 //! stdout, one Coq-syntax term per case:
 //!   mkNet [(k, dialler, acceptor, nonce); ...]
 //!         [(node, kind, session, is_server, conn); ...]          kind 0 opened 1 authenticated 2 ready 3 disconnected
 //!         [(mkSnap [(node, [(conn, session, is_server, peer_rank); ...]); ...] [(conn, dial_end_open, acc_end_open); ...]); ...]
+//!         [(k, status (9 = none seen), acked, eof); ...]            the legacy connections as the legacy peer saw them
 //! Infrastructure problems (no quiescence within a generous bound of VIRTUAL time, panics) exit 2.
 use std::collections::{HashMap, VecDeque};
 use std::io;
@@ -31,10 +35,12 @@ use std::time::Duration;
 
 use ractor::concurrency::JoinHandle;
 use ractor::{Actor, ActorRef};
+use prost::Message as _;
+use ractor_cluster::node::verif_auth::{challenge_digest, proto_auth, proto_control, proto_meta};
 use ractor_cluster::node::NodeServerSessionInformation;
 use ractor_cluster::{BoxRead, BoxWrite, ClusterBidiStream, NodeEventSubscription, NodeServer, NodeServerMessage};
 use rv_harness::*;
-use tokio::io::{AsyncRead, AsyncWrite, DuplexStream, ReadBuf, ReadHalf, WriteHalf};
+use tokio::io::{AsyncRead, AsyncReadExt, AsyncWrite, AsyncWriteExt, DuplexStream, ReadBuf, ReadHalf, WriteHalf};
 
 static PANICKED: AtomicBool = AtomicBool::new(false);
 
@@ -314,16 +320,145 @@ fn conn_of_label(l: &str) -> i64 {
     l.strip_prefix('c').and_then(|x| x.parse().ok()).unwrap_or(-1)
 }
 
+// ------------------------------------------------------------------ a hand-driven legacy peer
+
+#[derive(Default)]
+struct LegacyIn {
+    frames: VecDeque<proto_meta::NetworkMessage>,
+    eof: bool,
+}
+
+struct Legacy {
+    nonce: u64,
+    write: Option<WriteHalf<DuplexStream>>,
+    inbox: Arc<Mutex<LegacyIn>>,
+    step: u8, // 0: nothing sent, 1: Name sent, 2: challenge answered / status answered, 3: done
+    status: u64,
+    acked: bool,
+}
+
+fn frame_of(m: &proto_meta::NetworkMessage) -> Vec<u8> {
+    let mut buf = (m.encoded_len() as u64).to_be_bytes().to_vec();
+    m.encode(&mut buf).expect("encode");
+    buf
+}
+
+fn auth_msg(m: proto_auth::authentication_message::Msg) -> proto_meta::NetworkMessage {
+    proto_meta::NetworkMessage {
+        message: Some(proto_meta::network_message::Message::Auth(proto_auth::AuthenticationMessage { msg: Some(m) })),
+    }
+}
+
+async fn legacy_reader(mut r: ReadHalf<DuplexStream>, inbox: Arc<Mutex<LegacyIn>>) {
+    loop {
+        let n = match r.read_u64().await {
+            Ok(n) => n as usize,
+            Err(_) => break,
+        };
+        let mut buf = vec![0u8; n];
+        if r.read_exact(&mut buf).await.is_err() {
+            break;
+        }
+        match proto_meta::NetworkMessage::decode(&buf[..]) {
+            Ok(m) => inbox.lock().unwrap().frames.push_back(m),
+            Err(_) => break,
+        }
+    }
+    inbox.lock().unwrap().eof = true;
+}
+
+impl Legacy {
+    async fn send(&mut self, m: proto_meta::NetworkMessage) {
+        if let Some(w) = self.write.as_mut() {
+            let _ = w.write_all(&frame_of(&m)).await;
+            let _ = w.flush().await;
+        }
+    }
+
+    /// one step of the dialling side of the handshake, as a legacy peer performs it
+    async fn advance(&mut self, rank: u64) {
+        use proto_auth::authentication_message::Msg;
+        match self.step {
+            0 => {
+                self.send(auth_msg(Msg::Name(proto_auth::NameMessage {
+                    name: format!("n{:010}@host", rank),
+                    flags: Some(proto_auth::NodeFlags { version: 1 }),
+                    connection_string: format!("legacy{rank}:1"),
+                    connection_id: self.nonce,
+                })))
+                .await;
+                self.step = 1;
+            }
+            1 => {
+                let mut challenge = None;
+                {
+                    let mut i = self.inbox.lock().unwrap();
+                    while let Some(m) = i.frames.pop_front() {
+                        if let Some(proto_meta::network_message::Message::Auth(a)) = m.message {
+                            match a.msg {
+                                Some(Msg::ServerStatus(s)) => self.status = s.status as u64,
+                                Some(Msg::ServerChallenge(c)) => challenge = Some(c.challenge),
+                                _ => {}
+                            }
+                        }
+                    }
+                }
+                if let Some(c) = challenge {
+                    self.send(auth_msg(Msg::ClientChallenge(proto_auth::ChallengeReply {
+                        challenge: 0x5151_0000 + self.nonce as u32,
+                        digest: challenge_digest("cookie", c),
+                    })))
+                    .await;
+                    self.step = 2;
+                } else if self.status == 4 {
+                    // Alive: confirm we are alive
+                    self.send(auth_msg(Msg::ClientStatus(proto_auth::ClientStatus { status: true }))).await;
+                    self.step = 2;
+                }
+            }
+            2 => {
+                let mut i = self.inbox.lock().unwrap();
+                let mut acked = false;
+                while let Some(m) = i.frames.pop_front() {
+                    if let Some(proto_meta::network_message::Message::Auth(a)) = m.message {
+                        if let Some(Msg::ServerAck(_)) = a.msg {
+                            acked = true;
+                        }
+                    }
+                }
+                drop(i);
+                if acked {
+                    self.acked = true;
+                    // nothing to advertise: the initial synchronisation is just Ready
+                    self.send(proto_meta::NetworkMessage {
+                        message: Some(proto_meta::network_message::Message::Control(proto_control::ControlMessage {
+                            msg: Some(proto_control::control_message::Msg::Ready(proto_control::Ready {})),
+                        })),
+                    })
+                    .await;
+                    self.step = 3;
+                }
+            }
+            _ => {}
+        }
+    }
+}
+
 // ------------------------------------------------------------------ driver
 
 struct Conn {
-    dial: usize,
+    dial: usize, // LEGACY for the hand-driven peer
     acc: usize,
     link: Link,
     ends: Option<(GatedEnd, GatedEnd)>,
+    legacy: Option<Legacy>,
+    legacy_stream: Option<DuplexStream>,
     stalled: bool,
+    forever: bool,
     opened: bool,
 }
+
+const LEGACY: usize = 99;
 
 async fn sessions_of(n: &ActorRef<NodeServerMessage>) -> HashMap<u64, NodeServerSessionInformation> {
     match ractor::call_t!(n, NodeServerMessage::GetSessions, 1000) {
@@ -365,7 +500,11 @@ async fn snapshot(nodes: &[ActorRef<NodeServerMessage>], conns: &[Conn]) -> Stri
     for (k, c) in conns.iter().enumerate() {
         let l = c.link.lock().unwrap();
         let open = |e: usize| c.opened && !(l.dropped[e][0] && l.dropped[e][1]);
-        ends.push(format!("({}, {}, {})", k, coq_bool(open(0)), coq_bool(open(1))));
+        let dial_open = match &c.legacy {
+            Some(lg) => c.opened && !lg.inbox.lock().unwrap().eof,
+            None => open(0),
+        };
+        ends.push(format!("({}, {}, {})", k, coq_bool(dial_open), coq_bool(open(1))));
     }
     format!("(mkSnap {} {})", coq_list(&per_node), coq_list(&ends))
 }
@@ -400,6 +539,7 @@ async fn run_case(line: String) -> String {
     let (head, toks) = line.split_once('|').unwrap_or_else(|| infra(format!("no '|' in {line:?}")));
     let mut ranks: Vec<u64> = Vec::new();
     let mut conns: Vec<Conn> = Vec::new();
+    let mut legacy_rank: u64 = 0;
     for w in head.split_whitespace() {
         if let Some(v) = w.strip_prefix("names=") {
             ranks = v.split(',').map(u).collect();
@@ -409,6 +549,33 @@ async fn run_case(line: String) -> String {
                 let (a, b) = tokio::io::duplex(256 * 1024);
                 let link: Link = Arc::new(Mutex::new(LinkState::default()));
                 let label = format!("c{k}");
+                if x == "L" {
+                    let (y, nonce) = y.split_once(':').unwrap_or_else(|| infra(format!("bad legacy conn {c:?}")));
+                    // the real node's end reads freely: the legacy peer decides when it sends
+                    set_free(&link, true);
+                    conns.push(Conn {
+                        dial: LEGACY,
+                        acc: u(y) as usize,
+                        ends: Some((
+                            GatedEnd { stream: tokio::io::duplex(8).0, link: link.clone(), end: 0, label: label.clone() },
+                            GatedEnd { stream: b, link: link.clone(), end: 1, label },
+                        )),
+                        link,
+                        legacy: Some(Legacy {
+                            nonce: u(nonce),
+                            write: None,
+                            inbox: Arc::new(Mutex::new(LegacyIn::default())),
+                            step: 0,
+                            status: 9,
+                            acked: false,
+                        }),
+                        legacy_stream: Some(a),
+                        stalled: false,
+                        forever: false,
+                        opened: false,
+                    });
+                    continue;
+                }
                 conns.push(Conn {
                     dial: u(x) as usize,
                     acc: u(y) as usize,
@@ -417,10 +584,15 @@ async fn run_case(line: String) -> String {
                         GatedEnd { stream: b, link: link.clone(), end: 1, label },
                     )),
                     link,
+                    legacy: None,
+                    legacy_stream: None,
                     stalled: false,
+                    forever: false,
                     opened: false,
                 });
             }
+        } else if let Some(v) = w.strip_prefix("legacy=") {
+            legacy_rank = u(v);
         } else if w != "elect" {
             infra(format!("bad header word {w:?}"));
         }
@@ -452,23 +624,58 @@ async fn run_case(line: String) -> String {
             let c = &mut conns[k];
             let (d, a) = c.ends.take().unwrap_or_else(|| infra("connection opened twice"));
             c.opened = true;
-            nodes[c.dial]
-                .cast(NodeServerMessage::ConnectionOpenedExternal { stream: Box::new(d), is_server: false })
-                .unwrap_or_else(|e| infra(format!("open: {e}")));
+            if let Some(lg) = c.legacy.as_mut() {
+                drop(d);
+                let (r, w) = tokio::io::split(c.legacy_stream.take().unwrap());
+                lg.write = Some(w);
+                tokio::spawn(legacy_reader(r, lg.inbox.clone()));
+            } else {
+                nodes[c.dial]
+                    .cast(NodeServerMessage::ConnectionOpenedExternal { stream: Box::new(d), is_server: false })
+                    .unwrap_or_else(|e| infra(format!("open: {e}")));
+            }
             nodes[c.acc]
                 .cast(NodeServerMessage::ConnectionOpenedExternal { stream: Box::new(a), is_server: true })
                 .unwrap_or_else(|e| infra(format!("open: {e}")));
         } else if let Some(k) = t.strip_prefix('S') {
             conns[u(k) as usize].stalled = true;
+        } else if let Some(k) = t.strip_prefix('Z') {
+            conns[u(k) as usize].stalled = true;
+            conns[u(k) as usize].forever = true;
+        } else if let Some(k) = t.strip_suffix('n').or_else(|| t.strip_suffix('c')).or_else(|| t.strip_suffix('a')) {
+            let want = match t.chars().last() {
+                Some('n') => 0,
+                Some('c') => 1,
+                _ => 2,
+            };
+            let c = &mut conns[u(k) as usize];
+            if let Some(lg) = c.legacy.as_mut() {
+                if lg.step == want {
+                    lg.advance(legacy_rank).await;
+                }
+            }
         } else if t == "F" || t == "U" {
             if t == "U" {
                 for c in conns.iter_mut() {
-                    c.stalled = false;
+                    if !c.forever {
+                        c.stalled = false;
+                    }
                 }
             }
             for c in conns.iter() {
                 if !c.stalled {
                     set_free(&c.link, true);
+                }
+            }
+            // the legacy peer completes the handshakes it is allowed to complete, one step at a time
+            for _ in 0..3 {
+                for k in 0..conns.len() {
+                    if conns[k].opened && !conns[k].stalled {
+                        if let Some(lg) = conns[k].legacy.as_mut() {
+                            lg.advance(legacy_rank).await;
+                            barrier().await;
+                        }
+                    }
                 }
             }
             snaps.push(quiesce(&nodes, &conns, &events).await);
@@ -487,10 +694,11 @@ async fn run_case(line: String) -> String {
     for (k, c) in conns.iter().enumerate() {
         let l = c.link.lock().unwrap();
         let nonce = l.dirs[0].first_frame.as_deref().and_then(nonce_of);
-        let nonce = match nonce {
-            Some(n) => n,
-            None if !c.opened => 0,
-            None => infra(format!("connection {k}: no Name frame seen on the wire")),
+        let nonce = match (nonce, &c.legacy) {
+            (Some(n), _) => n,
+            (None, Some(lg)) => lg.nonce,
+            (None, None) if !c.opened => 0,
+            (None, None) => infra(format!("connection {k}: no Name frame seen on the wire")),
         };
         cs.push(format!("({}, {}, {}, {})", k, c.dial, c.acc, nonce));
     }
@@ -500,6 +708,13 @@ async fn run_case(line: String) -> String {
         .iter()
         .map(|(n, kind, sid, srv, label)| format!("({}, {}, {}, {}, {})", n, kind, sid, coq_bool(*srv), conn_of_label(label)))
         .collect();
+    let legs: Vec<String> = conns
+        .iter()
+        .enumerate()
+        .filter_map(|(k, c)| {
+            c.legacy.as_ref().map(|lg| format!("({}, {}, {}, {})", k, lg.status, coq_bool(lg.acked), coq_bool(lg.inbox.lock().unwrap().eof)))
+        })
+        .collect();
     // teardown
     for n in &nodes {
         n.stop(None);
@@ -508,7 +723,7 @@ async fn run_case(line: String) -> String {
         join_bounded(&format!("node {i}"), h).await;
     }
     drop(conns);
-    format!("mkNet {} {} {}", coq_list(&cs), coq_list(&evs), coq_list(&snaps))
+    format!("mkNet {} {} {} {}", coq_list(&cs), coq_list(&evs), coq_list(&snaps), coq_list(&legs))
 }
 
 fn main() {
